@@ -50,14 +50,16 @@ def pick_route(rng, p_fresh=0.5):
     """how the object under test comes to hold its settings: freshly constructed, or an object that already computed an estimate for
     OTHER data / sampling / NFFT / scale_by_freq and was then given the wanted values through its attributes.  The relations the
     properties state are about estimator OBJECTS, not only about constructor calls."""
-    return 'fresh' if rng.random() < p_fresh else ROUTES[1 + int(rng.integers(0, len(ROUTES) - 1))]
+    R = [r for r in ROUTES[1:] if r not in NO_AXIS_ROUTES]
+    return 'fresh' if rng.random() < p_fresh else R[int(rng.integers(0, len(R)))]
 
 
 def route_for(x, *salt):
     """a route and a scale_by_freq flag derived from the case itself (so that a replay needs no extra field): half of the cases fresh"""
     import zlib
     h = zlib.crc32(np.ascontiguousarray(np.asarray(x)).tobytes() + repr(salt).encode())
-    route = 'fresh' if h % 2 == 0 else ROUTES[1 + (h // 2) % (len(ROUTES) - 1)]
+    R = [r for r in ROUTES[1:] if r not in NO_AXIS_ROUTES]      # (a shallow copy shares the axis object with its original: psd-only route of route_consistency)
+    route = 'fresh' if h % 2 == 0 else R[(h // 2) % len(R)]
     return route, bool((h // 64) % 2)
 
 
